@@ -10,7 +10,9 @@
 (* Checked: the machine reports Ok only if the EOF chunk was seen, it was  *)
 (* the last chunk and the only EOF chunk, every declared entity was        *)
 (* delivered, at most one property directory was seen, and the stream      *)
-(* never failed; Error is final; the phase agrees with Finish.             *)
+(* never failed; Error is final; the phase agrees with Finish; no chunk is  *)
+(* accepted before the chunks that deliver the entities it refers to       *)
+(* (DependencyOrder).                                                      *)
 (***************************************************************************)
 EXTENDS OVMB
 
@@ -33,31 +35,45 @@ Alphabet ==
   \cup {[kind |-> "DIRP", entries |-> <<[k |-> "V", name |-> <<120>>, ty |-> TypeIndexOfTag("int32"), tname |-> <<105, 51, 50>>, def |-> <<9, 0, 0, 0>>]>>]}
   \cup {[kind |-> "PROP", first |-> f, count |-> c, idx |-> x, o |-> 1, n |-> 4 * c] : f \in 0 .. 1, c \in 0 .. 2, x \in 0 .. 1}
 
-VARIABLES phase, st, failed, hist
-vars == <<phase, st, failed, hist>>
+VARIABLES phase, st, failed, hist, orderOK
+vars == <<phase, st, failed, hist, orderOK>>
 
-Init == phase = "Init" /\ st = InitState(Hdr) /\ failed = FALSE /\ hist = <<>>
+Init == phase = "Init" /\ st = InitState(Hdr) /\ failed = FALSE /\ hist = <<>> /\ orderOK = TRUE
+
+(* the dependency rule of the chunk order, stated independently of ApplyChunk: when a chunk is        *)
+(* accepted in state s, its span continues the spans of its kind, every handle it stores names an    *)
+(* entity delivered by EARLIER chunks, a PROP chunk finds its directory entry and its elements       *)
+InOrder(s, c) ==
+  CASE c.kind = "VERT" -> c.first = s.nvr
+    [] c.kind = "TOPO" ->
+         LET read  == IF c.ent = 1 THEN s.ner ELSE IF c.ent = 2 THEN s.nfr ELSE s.ncr
+             bound == IF c.ent = 1 THEN s.nvr ELSE IF c.ent = 2 THEN 2 * s.ner ELSE 2 * s.nfr
+         IN c.first = read /\ \A i \in DOMAIN c.items : \A j \in DOMAIN c.items[i] : c.items[i][j] + c.hoff < bound
+    [] c.kind = "PROP" -> c.idx < Len(s.dir) /\ (c.count = 0 \/ c.first + c.count <= CountRead(s, s.dir[c.idx + 1].k))
+    [] c.kind = "DIRP" -> ~s.dirSeen
+    [] OTHER -> TRUE
 
 ReadHeader ==
   /\ phase = "Init" /\ ~failed
-  /\ phase' = "ReadingChunks" /\ UNCHANGED <<st, failed, hist>>
+  /\ phase' = "ReadingChunks" /\ UNCHANGED <<st, failed, hist, orderOK>>
 
 ReadChunk(c) ==
   /\ phase = "ReadingChunks" /\ ~failed /\ Len(hist) < MaxChunks
   /\ st' = ApplyChunk(Data, st, c)
   /\ hist' = Append(hist, c.kind)
   /\ phase' = IF st'.bad # <<>> THEN "Error" ELSE "ReadingChunks"
+  /\ orderOK' = (orderOK /\ (st'.bad # <<>> \/ (~st.eof /\ InOrder(st, c))))
   /\ UNCHANGED failed
 
 (* the underlying stream fails: whatever was being read, the machine must end in Error *)
 StreamFail ==
   /\ phase \in {"Init", "ReadingChunks"}
-  /\ failed' = TRUE /\ phase' = "Error" /\ UNCHANGED <<st, hist>>
+  /\ failed' = TRUE /\ phase' = "Error" /\ UNCHANGED <<st, hist, orderOK>>
 
 EndOfInput ==
   /\ phase = "ReadingChunks" /\ ~failed
   /\ phase' = IF Finish(st).ok THEN "Ok" ELSE "Error"
-  /\ UNCHANGED <<st, failed, hist>>
+  /\ UNCHANGED <<st, failed, hist, orderOK>>
 
 Next == ReadHeader \/ (\E c \in Alphabet : ReadChunk(c)) \/ StreamFail \/ EndOfInput
 Spec == Init /\ [][Next]_vars
@@ -74,6 +90,8 @@ OkOnlyIf ==
      /\ \A i \in DOMAIN st.edges : \A j \in DOMAIN st.edges[i] : st.edges[i][j] < Hdr.nv
      /\ \A i \in DOMAIN st.faces : \A j \in DOMAIN st.faces[i] : st.faces[i][j] < 2 * Hdr.ne
      /\ \A i \in DOMAIN st.cells : \A j \in DOMAIN st.cells[i] : st.cells[i][j] < 2 * Hdr.nf
+(* no chunk is ever accepted out of dependency order (so no file with such a chunk is read as Ok) *)
+DependencyOrder == orderOK
 ErrorIsFinal == failed => phase = "Error"
 AgreesWithFinish == (phase = "Ok" => Finish(st).ok) /\ (phase = "Error" /\ ~failed => ~Finish(st).ok \/ st.bad # <<>>)
 =============================================================================
